@@ -5,7 +5,10 @@ Reads (AST only, nothing is imported from the tree):
   * ipv8/messaging/serialization.py: ADDRESS_TYPE_* constants and, from `Address.pack` / `Address.unpack`, the struct
     formats and the offsets returned per address type (the snapshot codec of Network.snapshot/load_snapshot);
   * ipv8/peer.py: Peer.INTERFACE_ORDER (which address Peer.address prefers);
-  * ipv8/peerdiscovery/network.py: the three reverse_*_cache_size defaults and the address snapshot() skips.
+  * ipv8/peerdiscovery/network.py: the three reverse_*_cache_size defaults, and the GUARDS of the property-carrying
+    code paths as Lean Bool functions over named atoms (stale test of the address cache, introduction test of
+    discover_address, guard chain of add_verified_peer, cache-hit filters of get_peers_for_service and
+    get_introductions_from, keep condition of remove_by_address, write condition of snapshot, old-style skip).
 Tolerated rewrites: renamed locals in Address.unpack (the type variable is whatever `unpack_from(">B", …)` is assigned
 to, the offset is the method's third parameter, the length whatever the first `unpack_from` of the host-name branch is
 assigned to), `CONST == var` as well as `var == CONST`, if/elif chains, `struct.pack`/`struct.unpack_from` as attribute
@@ -111,6 +114,320 @@ def _ret_offset(fn_branch, offset_name="offset", length_name="length"):
                 raise TranslatorError("Address.unpack branch does not return offset + ...")
             return const, (length_name in names)
     raise TranslatorError("Address.unpack branch without return")
+
+
+
+# ------------------------------------------------------------------------------------------------------------------
+# guards of network.py -> Lean boolean functions over named atoms
+def _is_self_attr(n, name):
+    return isinstance(n, ast.Attribute) and n.attr == name and isinstance(n.value, ast.Name) and n.value.id == "self"
+
+
+def _has_attr(n, name):
+    return any(isinstance(x, ast.Attribute) and x.attr == name for x in ast.walk(n))
+
+
+def _is_call_on_self(n, attr, meth):
+    return (isinstance(n, ast.Call) and isinstance(n.func, ast.Attribute) and n.func.attr == meth
+            and _is_self_attr(n.func.value, attr))
+
+
+def _is_values_of_addresses(n):
+    return (isinstance(n, ast.Call) and isinstance(n.func, ast.Attribute) and n.func.attr == "values"
+            and isinstance(n.func.value, ast.Attribute) and n.func.value.attr == "addresses")
+
+
+def _cmp(n):
+    """single comparison -> (left, right, kind, negated) with kind in {'in','is','eq'}"""
+    if isinstance(n, ast.Compare) and len(n.ops) == 1:
+        op = n.ops[0]
+        table = {ast.In: ("in", False), ast.NotIn: ("in", True), ast.Is: ("is", False), ast.IsNot: ("is", True),
+                 ast.Eq: ("eq", False), ast.NotEq: ("eq", True)}
+        if type(op) in table:
+            k, neg = table[type(op)]
+            return n.left, n.comparators[0], k, neg
+    return None
+
+
+_HELPERS = None     # the class whose single-return helper methods may be inlined into a guard
+
+
+def _bool_expr(n, atom, where):
+    """Python condition -> Lean Bool term over the atoms recognised by `atom(node) -> (name, negated) | 'false' | None`"""
+    if isinstance(n, ast.BoolOp):
+        op = " && " if isinstance(n.op, ast.And) else " || "
+        return "(" + op.join(_bool_expr(v, atom, where) for v in n.values) + ")"
+    if isinstance(n, ast.UnaryOp) and isinstance(n.op, ast.Not):
+        return "(!" + _bool_expr(n.operand, atom, where) + ")"
+    a = atom(n)
+    if a is None and _HELPERS is not None and isinstance(n, ast.Call) and isinstance(n.func, ast.Attribute) \
+            and isinstance(n.func.value, ast.Name) and n.func.value.id == "self":
+        # a guard moved into a helper method whose body is a single `return <condition>`: translate that condition
+        for m in _HELPERS.body:
+            if isinstance(m, ast.FunctionDef) and m.name == n.func.attr:
+                body = [st for st in m.body if not (isinstance(st, ast.Expr) and isinstance(st.value, ast.Constant))]
+                if len(body) == 1 and isinstance(body[0], ast.Return) and body[0].value is not None:
+                    return _bool_expr(body[0].value, atom, where)
+    if a is None:
+        raise TranslatorError(f"{where}: condition part `{ast.unparse(n)}` is outside the supported subset")
+    if a == "false":
+        return "false"
+    name, neg = a
+    return f"(!{name})" if neg else name
+
+
+def _comp_cond(comp, atom, where):
+    """all `if` clauses of a comprehension, conjoined"""
+    ifs = comp.generators[0].ifs
+    parts = [_bool_expr(c, atom, where) for c in ifs]
+    return parts[0] if len(parts) == 1 else "(" + " && ".join(parts) + ")"
+
+
+def _find_if(fn, pred, where):
+    hits = [n for n in ast.walk(fn) if isinstance(n, ast.If) and pred(n)]
+    if len(hits) != 1:
+        raise TranslatorError(f"{where}: expected exactly one matching `if`, found {len(hits)}")
+    return hits[0]
+
+
+def _assigns_to(stmts, test):
+    for st in stmts:
+        for x in ast.walk(st):
+            if isinstance(x, ast.Assign) and any(test(t) for t in x.targets):
+                return True
+    return False
+
+
+def translate_guards(net) -> list:
+    global _HELPERS
+    N = _cls(net, "Network")
+    _HELPERS = N
+    L = ["", "/-! ### guards of network.py, translated from the AST (atoms are named in the parameter list) -/"]
+
+    # --- get_verified_by_address: when is the popped cache entry thrown away? ---------------------------------------
+    fn = _fn(N, "get_verified_by_address")
+    g = _find_if(fn, lambda n: len(n.body) == 1 and isinstance(n.body[0], ast.Assign)
+                 and isinstance(n.body[0].value, ast.Constant) and n.body[0].value.value is None
+                 and isinstance(n.test, ast.BoolOp), "get_verified_by_address (stale test)")
+
+    def a1(n):
+        if isinstance(n, ast.Name):
+            return ("cached", False)
+        c = _cmp(n)
+        if c:
+            l, r, k, neg = c
+            if k == "is" and any(_is_call_on_self(x, "verified_by_public_key_bin", "get") for x in (l, r)):
+                return ("indexHoldsObject", neg)
+            if k == "in" and _is_values_of_addresses(r):
+                return ("addressInObject", neg)
+        return None
+    L.append("/-- `if <this>: peer = None` after `reverse_ip_lookup.pop(address)` -/")
+    L.append("def ipEntryStale (cached indexHoldsObject addressInObject : Bool) : Bool := "
+             + _bool_expr(g.test, a1, "get_verified_by_address"))
+
+    # --- discover_address: when is the address (re)assigned to the introducer? ---------------------------------------
+    fn = _fn(N, "discover_address")
+    g = _find_if(fn, lambda n: _assigns_to(n.body, lambda t: isinstance(t, ast.Subscript) and _is_self_attr(t.value, "_all_addresses")),
+                 "discover_address (introduction test)")
+
+    def a3(n):
+        c = _cmp(n)
+        if c:
+            l, r, k, neg = c
+            if k == "in" and _is_self_attr(r, "_all_addresses"):
+                return ("addressKnown", neg)
+            if k == "in" and _is_self_attr(r, "verified_by_public_key_bin") and _has_attr(l, "introduced_by"):
+                return ("introducerInIndex", neg)
+        return None
+    L.append("/-- the test guarding `_all_addresses[address] = WalkableAddress(peer…)` -/")
+    L.append("def needsIntroCond (addressKnown introducerInIndex : Bool) : Bool := "
+             + _bool_expr(g.test, a3, "discover_address"))
+    pre = [n for n in fn.body if isinstance(n, ast.If)]
+    if not pre or not (_cmp(pre[0].test) and _is_self_attr(_cmp(pre[0].test)[1], "blacklist") and not _cmp(pre[0].test)[3]
+                       and isinstance(pre[0].body[-1], ast.Return)):
+        raise TranslatorError("discover_address: leading `if address in self.blacklist: …; return` not found")
+
+    # --- add_verified_peer: the guard chain --------------------------------------------------------------------------
+    fn = _fn(N, "add_verified_peer")
+    chain = []
+    first = fn.body[0] if not isinstance(fn.body[0], ast.Expr) else fn.body[1]
+    c = _cmp(first.test) if isinstance(first, ast.If) else None
+    if not (c and c[2] == "in" and not c[3] and _is_self_attr(c[1], "blacklist_mids") and _has_attr(c[0], "mid")
+            and len(first.body) == 1 and isinstance(first.body[0], ast.Return)):
+        raise TranslatorError("add_verified_peer: leading `if peer.mid in self.blacklist_mids: return` not found")
+    chain.append(("midBlacklisted", 0))
+    withs = [n for n in fn.body if isinstance(n, ast.With)]
+    if len(withs) != 1:
+        raise TranslatorError("add_verified_peer: expected one `with self.graph_lock` block")
+    body = withs[0].body
+    known_name = None
+    ifs = []
+    for st in body:
+        nm, call = _assigned_name(st)
+        if nm and _is_call_on_self(call, "verified_by_public_key_bin", "get"):
+            known_name = nm
+        if isinstance(st, ast.If):
+            ifs.append(st)
+    if known_name is None or len(ifs) < 2:
+        raise TranslatorError("add_verified_peer: `known = verified_by_public_key_bin.get(…)` / guard chain not found")
+    k_if, a_if = ifs[0], ifs[1]
+    if not (isinstance(k_if.test, ast.Name) and k_if.test.id == known_name and isinstance(k_if.body[-1], ast.Return)
+            and any(_callname(x) == "update" for x in ast.walk(k_if))):
+        raise TranslatorError("add_verified_peer: `if known: known.addresses.update(…); return` not found")
+    chain.append(("keyInIndex", 1))
+
+    def quant(test, fname, container, neg_wanted):
+        if not (isinstance(test, ast.Call) and _callname(test) == fname and test.args
+                and isinstance(test.args[0], ast.GeneratorExp)):
+            return False
+        cc = _cmp(test.args[0].elt)
+        return bool(cc and cc[2] == "in" and cc[3] == neg_wanted and _is_self_attr(cc[1], container))
+    adds = lambda stmts: any(_callname(x) == "add" and isinstance(x.func, ast.Attribute) and _is_self_attr(x.func.value, "verified_peers")
+                             for st in stmts for x in ast.walk(st))
+    if not (quant(a_if.test, "any", "_all_addresses", False) and adds(a_if.body)):
+        raise TranslatorError("add_verified_peer: `if any(address in self._all_addresses …): verified_peers.add` not found")
+    chain.append(("someAddressKnown", 2))
+    if not (len(a_if.orelse) == 1 and isinstance(a_if.orelse[0], ast.If)):
+        raise TranslatorError("add_verified_peer: `elif all(address not in self.blacklist …)` not found")
+    e_if = a_if.orelse[0]
+    if not (quant(e_if.test, "all", "blacklist", True) and adds(e_if.body) and not e_if.orelse
+            and _assigns_to(e_if.body, lambda t: isinstance(t, ast.Subscript) and _is_self_attr(t.value, "_all_addresses"))):
+        raise TranslatorError("add_verified_peer: the `elif all(…)` branch does not register the addresses and add the peer")
+    chain.append(("noAddressBlacklisted", 3))
+    L.append("/-- which branch add_verified_peer takes: 0 return (blacklisted mid), 1 address update of the known peer, 2 verify"
+             " (some address known), 3 register the addresses and verify, 4 nothing -/")
+    expr = "4"
+    for name, num in reversed(chain):
+        expr = f"if {name} then {num} else {expr}"
+    L.append("def addBranch (midBlacklisted keyInIndex someAddressKnown noAddressBlacklisted : Bool) : Nat := " + expr)
+
+    # --- get_peers_for_service: which cached peers survive a cache hit? -----------------------------------------------
+    fn = _fn(N, "get_peers_for_service")
+    comps = [n for n in ast.walk(fn) if isinstance(n, ast.ListComp) and n.generators[0].ifs]
+    if len(comps) != 1:
+        raise TranslatorError("get_peers_for_service: the filtering list comprehension of the cache-hit path not found")
+
+    def a4(n):
+        c = _cmp(n)
+        if c:
+            l, r, k, neg = c
+            if k == "in" and _is_self_attr(r, "verified_peers"):
+                return ("isVerified", neg)
+            if k == "in" and _is_call_on_self(r, "services_per_peer", "get"):
+                return ("advertisesService", neg)
+        return None
+    L.append("/-- filter of the cached list on a cache hit -/")
+    L.append("def svcHitKeep (isVerified advertisesService : Bool) : Bool := "
+             + _comp_cond(comps[0], a4, "get_peers_for_service"))
+
+    # --- get_introductions_from: which cached addresses survive a cache hit? ------------------------------------------
+    fn = _fn(N, "get_introductions_from")
+    comps = [n for n in ast.walk(fn) if isinstance(n, ast.ListComp) and n.generators[0].ifs
+             and not isinstance(n.generators[0].iter, ast.Call)]
+    if len(comps) != 1:
+        raise TranslatorError("get_introductions_from: the validating list comprehension of the cache-hit path not found")
+
+    def a5(n):
+        c = _cmp(n)
+        if c:
+            l, r, k, neg = c
+            if k == "in" and _is_self_attr(r, "_all_addresses"):
+                return ("addressKnown", neg)
+            if k == "eq" and (_has_attr(l, "introduced_by") or _has_attr(r, "introduced_by")):
+                return ("introducedByPeer", neg)
+        return None
+    L.append("/-- filter of the cached introduction list on a cache hit -/")
+    L.append("def introHitKeep (addressKnown introducedByPeer : Bool) : Bool := "
+             + _comp_cond(comps[0], a5, "get_introductions_from"))
+
+    # --- remove_by_address: which verified peers are kept? ------------------------------------------------------------
+    fn = _fn(N, "remove_by_address")
+    comps = [n for n in ast.walk(fn) if isinstance(n, (ast.SetComp, ast.ListComp)) and n.generators[0].ifs]
+    if len(comps) != 1:
+        raise TranslatorError("remove_by_address: the comprehension computing the remaining verified peers not found")
+
+    def a7(n):
+        c = _cmp(n)
+        if c:
+            l, r, k, neg = c
+            if k == "in" and _is_values_of_addresses(r):
+                return ("usesAddress", neg)
+            if k == "eq" and not neg and _is_call_on_self(l, "services_per_peer", "pop") \
+                    and isinstance(r, ast.Constant) and r.value == 0:
+                return "false"      # `services_per_peer.pop(…) == 0`: never true, evaluated for its side effect
+        return None
+    L.append("/-- a verified peer stays in `verified_peers` iff (the `pop(…) == 0` disjunct only forgets the services) -/")
+    L.append("def rmaKeep (usesAddress : Bool) : Bool := " + _comp_cond(comps[0], a7, "remove_by_address"))
+
+    # --- snapshot: which verified peers are written? ------------------------------------------------------------------
+    fn = _fn(N, "snapshot")
+    g = _find_if(fn, lambda n: any(_callname(x) == "pack" for st in n.body for x in ast.walk(st)), "snapshot")
+
+    def a6(n):
+        if isinstance(n, ast.Attribute) and n.attr == "address":
+            return ("addressTruthy", False)
+        c = _cmp(n)
+        if c:
+            l, r, k, neg = c
+            tup = r if isinstance(r, ast.Tuple) else l if isinstance(l, ast.Tuple) else None
+            if k == "eq" and tup is not None and [getattr(e, "value", None) for e in tup.elts] == ["0.0.0.0", 0]:
+                return ("isZeroAddress", neg)
+        return None
+    L.append("/-- `if <this>: out += pack(\"address\", peer.address)` -/")
+    L.append("def snapshotKeep (addressTruthy isZeroAddress : Bool) : Bool := " + _bool_expr(g.test, a6, "snapshot"))
+
+    # --- get_walkable_addresses: the old-style skip ---------------------------------------------------------------------
+    fn = _fn(N, "get_walkable_addresses")
+    g = _find_if(fn, lambda n: len(n.body) == 1 and isinstance(n.body[0], ast.Continue), "get_walkable_addresses (old_style skip)")
+
+    def a8(n):
+        if isinstance(n, ast.Name) and "old" in n.id:
+            return ("oldStyleRequested", False)
+        if isinstance(n, ast.Name) and "new" in n.id:
+            return ("addressIsNewStyle", False)
+        return None
+    L.append("/-- `if <this>: continue` in the per-service filter -/")
+    L.append("def walkSkip (oldStyleRequested addressIsNewStyle : Bool) : Bool := " + _bool_expr(g.test, a8, "get_walkable_addresses"))
+
+    # --- effects: which stores does a mutator touch? (presence of the statement, as a Bool) --------------------------
+    def pops(fn_node, attr):
+        return any(_callname(x) == "pop" and isinstance(x.func, ast.Attribute) and _is_self_attr(x.func.value, attr)
+                   for x in ast.walk(fn_node))
+
+    def removes_from_set(fn_node):
+        return any(_callname(x) == "remove" and isinstance(x.func, ast.Attribute) and _is_self_attr(x.func.value, "verified_peers")
+                   for x in ast.walk(fn_node))
+    rmp, rma, addf = _fn(N, "remove_peer"), _fn(N, "remove_by_address"), _fn(N, "add_verified_peer")
+    reassigns_set = _assigns_to(rma.body, lambda t: _is_self_attr(t, "verified_peers"))
+    sets_index = lambda stmts: _assigns_to(stmts, lambda t: isinstance(t, ast.Subscript) and _is_self_attr(t.value, "verified_by_public_key_bin"))
+    inval = any(isinstance(f, ast.For) and _is_call_on_self(f.iter, "services_per_peer", "get") and pops(f, "reverse_service_lookup")
+                for f in ast.walk(addf))
+    flags = [
+        ("rmpPopsAddresses", pops(rmp, "_all_addresses"), "remove_peer pops the peer's addresses from _all_addresses"),
+        ("rmpRemovesFromSet", removes_from_set(rmp), "remove_peer removes the peer from verified_peers"),
+        ("rmpPopsIndex", pops(rmp, "verified_by_public_key_bin"), "remove_peer pops verified_by_public_key_bin"),
+        ("rmpPopsServices", pops(rmp, "services_per_peer"), "remove_peer pops services_per_peer"),
+        ("rmaPopsAddress", pops(rma, "_all_addresses"), "remove_by_address pops the address from _all_addresses"),
+        ("rmaReplacesSet", reassigns_set, "remove_by_address assigns the filtered set to verified_peers"),
+        ("rmaPopsIndex", pops(rma, "verified_by_public_key_bin"), "remove_by_address pops verified_by_public_key_bin for the removed peers"),
+        ("addSetsIndex", sets_index(a_if.body) and sets_index(e_if.body), "both verifying branches of add_verified_peer store the peer in the index"),
+        ("addInvalidatesServiceCache", inval, "add_verified_peer drops the cached peer lists of the new peer's services"),
+    ]
+    L.append("")
+    L.append("/-! ### effects: does the mutator contain the statement? -/")
+    for name, val, doc in flags:
+        L.append(f"/-- {doc} -/")
+        L.append(f"def {name} : Bool := {'true' if val else 'false'}")
+    # a query must not alias a stored set (defect 2f6dd0d): `services = self.services_per_peer.get(…)` followed by `.add`
+    wfn = _fn(N, "get_walkable_addresses")
+    for st in ast.walk(wfn):
+        nm, call = _assigned_name(st)
+        if nm and _is_call_on_self(call, "services_per_peer", "get") and isinstance(st.value, ast.Call) and st.value is call:
+            if any(_callname(x) == "add" and isinstance(x.func, ast.Attribute) and isinstance(x.func.value, ast.Name)
+                   and x.func.value.id == nm for x in ast.walk(wfn)):
+                raise TranslatorError("get_walkable_addresses adds to the set object stored in services_per_peer (a query "
+                                      "that changes the graph)")
+    return L
 
 
 def translate() -> str:
@@ -247,6 +564,7 @@ def translate() -> str:
     L.append(f"def defaultIpCap : Nat := {caps['reverse_ip_cache_size']}")
     L.append(f"def defaultIntroCap : Nat := {caps['reverse_intro_cache_size']}")
     L.append(f"def defaultSvcCap : Nat := {caps['reverse_service_cache_size']}")
+    L += translate_guards(net)
     L.append("")
     L.append("end Ipv8.C12.Gen")
     return "\n".join(L) + "\n"
